@@ -197,6 +197,22 @@ func Upgrade8To10(old, new string, logger *log.Logger) (retErr error) {
 	// Remove incomplete plan file from an interrupted write.
 	os.Remove(planPath + ".tmp")
 
+	// A plan next to an existing 'new' directory means the plan's rename -- its
+	// commit point -- already happened ('new' cannot exist when a plan is
+	// written). The plan cannot be replayed from the top any more: it would
+	// rebuild the temporary directory and fail renaming it onto 'new', or fail
+	// copying from an 'old' directory that is already (partly) removed. All that
+	// is left of the upgrade is cleaning up, which the code below does.
+	if fsutil.FileExists(planPath) && fsutil.DirExists(new) {
+		logger.Printf("found completed upgrade plan at %s, finishing cleanup", planPath)
+		if err := os.RemoveAll(tmpName(new)); err != nil {
+			return fmt.Errorf("failed to remove temporary upgraded snapshot directory %s: %s", tmpName(new), err)
+		}
+		if err := os.Remove(planPath); err != nil {
+			return fmt.Errorf("failed to remove completed upgrade plan %s: %s", planPath, err)
+		}
+	}
+
 	// Check for existing plan (crash recovery).
 	if fsutil.FileExists(planPath) {
 		logger.Printf("found existing upgrade plan at %s, resuming", planPath)
